@@ -264,9 +264,11 @@ class EncodeSparse(Sparse_):
 
     def __getitem__(self, key: Union[int,str]):
         try:
-            return self._enc.get(key,lambda x:x)(self._row[key])
+            val = self._row[key]
         except KeyError:
-            if key in self._nsp: return self._enc.get(key, lambda x:x)("0")
+            if key not in self._nsp: raise
+            val = "0"
+        return self._enc.get(key,lambda x:x)(val)
 
     def __iter__(self) -> Iterator:
         return iter(self._row.keys() | self._nsp)
